@@ -75,6 +75,16 @@ def arith_lines(rng, thorough):
                 pairs.add((a, b))
             for a, b in sorted(pairs):
                 lines.append("AR %s %s %d %d" % (op, ty, a, b))
+    # one operand a compile-time constant (8 constants x both sides, each in an out-of-line function of its own: the
+    # situation in which a compiler lets operands of an inline-assembly statement share a register)
+    for ty, w in (("u32", 32), ("u64", 64)):
+        mx = (1 << w) - 1
+        ns = sorted(set([0, 1, 2, 3, mx, mx - 1, mx - 2, mx // 2, mx // 2 + 1, (1 << (w // 2)) - 1, 1 << (w // 2), (1 << (w // 2)) + 1] +
+                        [rnd_val(rng, w) for _ in range(6 if not thorough else 200)]))
+        for op in ("add", "mul", "sub"):
+            for ki in range(8):
+                for n in ns:
+                    lines.append("ARK %s %s %d %d" % (op, ty, ki, n))
     return lines
 
 
